@@ -53,4 +53,7 @@ package defs
 //@   loop 0 invariant c12_id: forall k int :: {ret[k]} {$src[k]} 0 <= k && k < len(ret) ==> ret[k].ID == pu16Val(tagP(sfTag(vt, $src[k]), 0))
 //@   loop 0 invariant c12_spec: forall k int :: {ret[k]} {$src[k]} 0 <= k && k < len(ret) ==> ret[k].Spec == specWord(sfTag(vt, $src[k]))
 //@   loop 0 invariant c12_type: forall k int :: {ret[k]} {$src[k]} 0 <= k && k < len(ret) ==> ret[k].Type == parsedType(sfType(vt, $src[k]), typeWord(sfTag(vt, $src[k])))
+//@   loop 0 invariant c13_idok: forall k int :: {ret[k]} {$src[k]} 0 <= k && k < len(ret) ==> pu16OK(tagP(sfTag(vt, $src[k]), 0)) && tagN(sfTag(vt, $src[k])) >= 1
+//@   loop 0 invariant c13_seen: forall k int :: {ret[k]} 0 <= k && k < len(ret) ==> maphas(ids, ret[k].ID)
+//@   loop 0 invariant c13_unique: forall k1 int, k2 int :: {ret[k1], ret[k2]} 0 <= k1 && k1 < k2 && k2 < len(ret) ==> ret[k1].ID != ret[k2].ID
 //@   loop 0 invariant c12_complete: forall i0 int :: {$dst[i0]} 0 <= i0 && i0 < i && elig(vt, i0) ==> 0 <= $dst[i0] && $dst[i0] < len(ret) && $src[$dst[i0]] == i0
